@@ -153,7 +153,9 @@ def checkStep (c : Case) (st : St) (live : List Live) (op : Op) (s : StepObs) : 
           let wasKnown := (famDests st.prev fam).any fun d => d.1 = net && d.2.any (fromAddr c src.addr)
           let n := countPrefixes (fun e => fromAddr c src.addr e && !e.filtered) (famDests s.fams fam)
           if !wasKnown && s.res ≠ .limit && n > max then
-            some s!"limit-exceeded-not-signalled class={match live.find? fun l => l.src = src.id ∧ l.fam = fam with | some l => cls l | none => "plain"}"
+            -- paths of another session of the same peer are in the RIB: the recorded finding's class
+            let other := (famDests s.fams fam).any fun d => d.2.any fun e => e.src != src.id && fromAddr c src.addr e
+            some s!"limit-exceeded-not-signalled class={if other then "inherited-stale-paths" else match live.find? fun l => l.src = src.id ∧ l.fam = fam with | some l => cls l | none => "plain"}"
           else none
    | _ => none)
 
